@@ -59,7 +59,11 @@ def main():
     if confirmed:
         for p in props:
             t = time.time()
+            ev = os.path.join(VERIF, "evidence", p + ".json")
+            saved = open(ev).read() if os.path.exists(ev) else None
             rc, o = sh(["./check", p, "quick"], cwd=VERIF, env={"CICADA_REPO": wt}, timeout=3000)
+            if saved is not None:   # evidence must describe runs on the unchanged tree only
+                open(ev, "w").write(saved)
             viol = [l for l in o.split("\n") if l.startswith("VIOLATION")]
             checks[p] = {"exit": rc, "violations": viol[:5], "caught": rc == 1 and bool(viol), "wall_s": round(time.time() - t, 1)}
             for v in viol[:1]:
